@@ -137,7 +137,7 @@ def guarded_index(ctx, crate, crs, tag):
             ctx.ob(R, root_fn, "%s[%s]" % (fld, nm), ok, where_call(b, i),
                    "access is dominated by a length test of %s whose out-of-range edge resizes first" % fld if ok else
                    "%s is accessed by index without a dominating length test / resize in this function" % fld)
-    ctx.floor(R, "indexed accesses to id-indexed tables", n, 5)
+    ctx.floor(R, "indexed accesses to id-indexed tables", n, 3)
 
 
 # ------------------------------------------------------------------------------------------------
